@@ -206,5 +206,8 @@ func (e *simEnv) checkUniversal(res drive.Result, f *refmatch.Flow, js []judged,
 	if el, b := res.End.Sub(res.Start), timeBound(e.spec); el > b {
 		c.Violate("C08", "bound/"+e.spec.V.Name, fmt.Sprintf("%s: run took %v of virtual time, bound %v", tag, el, b), fmt.Sprintf("%+v", e.spec))
 	}
+	if e.handle != nil && e.handle.ReadOverrun {
+		c.Violate("C08", "runaway-reader/"+e.spec.V.Name, tag+": the run kept reading without bound (stopped by the harness after 400000 reads)", nil)
+	}
 	c.Count("runs", 1)
 }
